@@ -40,14 +40,14 @@ def reference(ubi, gv, tol=None, labels=None, label=None):
     if dU == 0: return n, mean, None, "singular-UB"
     return n, mean, np.linalg.inv(UB), "refined(det UB=%g)" % dU
 
-def compare_real(kind, ubi, gv, tol, labels=None, label=None):
+def compare_real(kind, ubi, gv, tol, labels=None, label=None, exact=False):
     """run the rebuilt kernel on concrete inputs and compare with the definition. returns list of discrepancies"""
     bad = []
     ubi = np.array(ubi, float).reshape(3, 3); gv = np.array(gv, float).reshape(-1, 3)
     n, mean, want, why = reference(ubi, gv, tol, labels, label)
     # stay away from the decision boundaries (float rounding is outside the claim)
     h = ubi @ gv.T; d = h - np.rint(h); drl = (d * d).sum(0)
-    if labels is None and len(drl) and np.any(np.abs(drl - tol * tol) < 1e-9 * max(1.0, tol * tol)): return ["boundary"], True
+    if labels is None and not exact and len(drl) and np.any(np.abs(drl - tol * tol) < 1e-9 * max(1.0, tol * tol)): return ["boundary"], True
     if kind == "score":
         got = creplay.score(ubi, gv, tol)
         if got != n: bad.append("score returned %d, definition gives %d" % (got, n))
@@ -162,6 +162,11 @@ def main():
             for t in (tol, 0.5, 0.02):
                 b, bd = compare_real("score", a, g, t)
                 if b and not bd: return True, "%s (ubi=%s gv=%s tol=%r)" % ("; ".join(b), a.tolist(), g.tolist(), t)
+        # exactly representable boundary witnesses (every float operation is exact: identity UBI, dyadic g and tol): error^2 == tol^2
+        for t, off in ((0.25, 0.25), (0.5, 0.5), (0.125, -0.125)):
+            g = np.array([[k + 1 + off, 0.0, 0.0] for k in range(n)]).reshape(n, 3)
+            b, bd = compare_real("score", np.eye(3), g, t, exact=True)
+            if b: return True, "%s (ubi=identity gv=%s tol=%r: the error equals the tolerance exactly)" % ("; ".join(b), g.tolist(), t)
         return False, "model did not reproduce (abstract product model) and no witness in the confirmation family"
     for n in range(0, NMAX + 1):
         jobs.append(("score[n=%d]" % n, mk_score(n), dict(replay=replay_score, timeout_ms=30000, expect_paths=2 ** n)))
